@@ -88,7 +88,7 @@ def statp(changes):
 
 
 def run(ctx):
-    ctx.rule = ("histories of 0-12 STATP messages (0-6 records each, repeated positions, the simulator's 1-byte change) interleaved with refreshes that "
+    ctx.rule = ("histories of 0-12 STATP messages (0-6 records each, repeated positions, byte-identical repeats of earlier messages, the simulator's 1-byte change) interleaved with refreshes that "
                 "overwrite the same positions, on 48-byte blocks; the real long-lived handler objects of both clients; block after every event and STATQ "
                 "datagrams compared with Model/Partial.v; a malformed stream adds truncated / over-long STATP and positions beyond the block; "
                 "non-trivial = history with at least two partial messages that touch a common position")
@@ -104,6 +104,14 @@ def run(ctx):
         malformed = h % 10 == 9
         for _ in range(rng.randrange(0, 13)):
             r = rng.random()
+            prevp = [j for j, u in enumerate(ups) if u[0] == "P" and u[1]]
+            if r < 0.14 and prevp and not malformed:
+                # the spa sends a message it has sent before, byte for byte (same positions, same values) - mostly the latest
+                j = prevp[-1] if rng.random() < 0.7 else rng.choice(prevp)
+                evs.append(evs[j])
+                ups.append(ups[j])
+                ctx.count("repeated_identical_statp")
+                continue
             if r < 0.25:
                 st = rng.choice(hot + [0, rng.randrange(n - 4)])
                 data = bytes(rng.randrange(256) for _ in range(rng.choice([1, 2, 4, n - st])))
